@@ -128,103 +128,25 @@ func Main(prop string) {
 	} else {
 		units = generate(prop, fl)
 	}
-	// distribute: exploration roots first (they are the long ones), round-robin
-	sort.SliceStable(units, func(i, j int) bool { return units[i].Cap > units[j].Cap })
-	if np > len(units) {
-		np = len(units)
-	}
-	if np < 1 {
-		np = 1
-	}
-	files := make([]*bufio.Writer, np)
-	fhs := make([]*os.File, np)
-	for i := range files {
-		fh, err := os.Create(filepath.Join(fl.Out, fmt.Sprintf("child_%02d.in.jsonl", i)))
-		if err != nil {
-			panic(err)
+	// two waves: everything else first; then the renewal-race cases (free.go, LeaseMs > 0), fewer at a time: they
+	// aim two goroutines at each other within microseconds and need processors that are not all taken by siblings
+	var wave1, wave2 []unit
+	for _, u := range units {
+		if u.Case.Free != nil && u.Case.Free.LeaseMs > 0 {
+			wave2 = append(wave2, u)
+		} else {
+			wave1 = append(wave1, u)
 		}
-		fhs[i] = fh
-		files[i] = bufio.NewWriter(fh)
 	}
-	for i, u := range units {
-		b, _ := json.Marshal(u)
-		files[i%np].Write(b)
-		files[i%np].WriteByte('\n')
+	lines, fails := runWave(fl, wave1, np, "child")
+	np2 := np / 2
+	if np2 < 1 {
+		np2 = 1
 	}
-	for i := range files {
-		files[i].Flush()
-		fhs[i].Close()
-	}
-	self, _ := os.Executable()
-	var wg sync.WaitGroup
-	fails := make([]string, np)
-	for i := 0; i < np; i++ {
-		wg.Add(1)
-		go func(i int) {
-			defer wg.Done()
-			cmd := exec.Command(self, "--child-in", filepath.Join(fl.Out, fmt.Sprintf("child_%02d.in.jsonl", i)),
-				"--child-out", filepath.Join(fl.Out, fmt.Sprintf("child_%02d.out.jsonl", i)), "--out", fl.Out)
-			cmd.Env = append(os.Environ(), "GOMAXPROCS=2")
-			if b, err := cmd.CombinedOutput(); err != nil {
-				s := string(b)
-				if len(s) > 3000 {
-					// the head names the fatal error, the tail the goroutines involved
-					s = s[:900] + "\n...\n" + s[len(s)-2000:]
-				}
-				fails[i] = err.Error() + ": " + s
-			}
-		}(i)
-	}
-	wg.Wait()
-
+	lines2, fails2 := runWave(fl, wave2, np2, "race")
+	lines = append(lines, lines2...)
+	fails = append(fails, fails2...)
 	s := hx.NewSink(fl, fmt.Sprintf(coqHeader, prop), "case")
-	var lines []outLine
-	for i := 0; i < np; i++ {
-		fh, err := os.Open(filepath.Join(fl.Out, fmt.Sprintf("child_%02d.out.jsonl", i)))
-		if err != nil {
-			continue
-		}
-		sc := bufio.NewScanner(fh)
-		sc.Buffer(make([]byte, 1<<20), 1<<28)
-		for sc.Scan() {
-			var l outLine
-			if json.Unmarshal(sc.Bytes(), &l) == nil && l.Res != nil {
-				lines = append(lines, l)
-			}
-		}
-		fh.Close()
-	}
-	// a child that died (fatal error of the Go runtime such as "concurrent map writes", which no
-	// recover() stops): the unit it was running is the first one of its input without a result
-	for i := 0; i < np; i++ {
-		if fails[i] == "" {
-			continue
-		}
-		done := map[uint64]bool{}
-		for _, l := range lines {
-			done[l.Case.ID] = true
-			if l.Root != 0 {
-				done[l.Root] = true
-			}
-		}
-		for j := i; j < len(units); j += np {
-			u := units[j]
-			if done[u.Case.ID] {
-				continue
-			}
-			var prov []string
-			for _, p := range u.Case.Prov {
-				prov = append(prov, strconv.Itoa(p))
-			}
-			lines = append(lines, outLine{Case: u.Case, Res: &Result{
-				Coq:    fmt.Sprintf("mkCase @ID@%%N %d [%s] false []", u.Case.NT, strings.Join(prov, ";")),
-				Counts: map[string]int{"child-process-died": 1},
-				Direct: []Direct{{What: "the implementation crashed the process", Detail: "while this case was running the harness process died: " + fails[i]}},
-			}})
-			fails[i] = ""
-			break
-		}
-	}
 	sort.SliceStable(lines, func(i, j int) bool { return lines[i].Case.ID < lines[j].Case.ID })
 	type pendingDirect struct {
 		id uint64
@@ -289,23 +211,127 @@ func Main(prop string) {
 	for _, p := range pending {
 		s.DirectViolation(p.id, p.d.What, p.d.Detail)
 	}
-	for i, f := range fails {
-		if f != "" {
-			s.DirectViolation(0, "harness child process failed", fmt.Sprintf("child %d: %s", i, f))
-		}
+	for _, f := range fails {
+		s.DirectViolation(0, "harness child process failed", f)
 	}
 	s.Extra["exploration_roots_complete"] = rootsDone
 	s.Extra["exploration_roots_truncated"] = rootsTrunc
 	s.Extra["runs_discarded_renewal_interfered"] = discarded
 	s.Extra["processes"] = np
-	for i := 0; i < np; i++ {
-		os.Remove(filepath.Join(fl.Out, fmt.Sprintf("child_%02d.in.jsonl", i)))
-		os.Remove(filepath.Join(fl.Out, fmt.Sprintf("child_%02d.out.jsonl", i)))
-	}
 	rule := "one case = one schedule of the real kvs/distlock under the gating storage, driven from quiescent point to quiescent point and validated as a trace of model/LockLTS.v with token/counter/record/parked-set snapshots; " +
 		"random: seeded programs and scheduler choices; exploration: every scheduler choice sequence of a small root configuration (stateless DFS). " +
 		"distinct = by content hash of (configuration, programs, choices taken); non-trivial = at least 3 operations run and at least one of: a goroutine parked in the local or the storage wait, a fault, a cancellation, a shutdown"
 	s.Close(rule, false)
+}
+
+// runWave distributes the units over np child processes (exploration roots first - they are the long
+// ones -, round-robin), runs them and collects the result lines. A child that died (fatal error of the Go
+// runtime such as "concurrent map writes", which no recover() stops) is attributed to the unit it was
+// running: the first one of its input without a result. fails: children whose death could not be attributed.
+func runWave(fl *hx.Flags, units []unit, np int, tag string) (lines []outLine, leftover []string) {
+	if len(units) == 0 {
+		return nil, nil
+	}
+	sort.SliceStable(units, func(i, j int) bool { return units[i].Cap > units[j].Cap })
+	if np > len(units) {
+		np = len(units)
+	}
+	if np < 1 {
+		np = 1
+	}
+	inName := func(i int) string { return filepath.Join(fl.Out, fmt.Sprintf("%s_%02d.in.jsonl", tag, i)) }
+	outName := func(i int) string { return filepath.Join(fl.Out, fmt.Sprintf("%s_%02d.out.jsonl", tag, i)) }
+	files := make([]*bufio.Writer, np)
+	fhs := make([]*os.File, np)
+	for i := range files {
+		fh, err := os.Create(inName(i))
+		if err != nil {
+			panic(err)
+		}
+		fhs[i] = fh
+		files[i] = bufio.NewWriter(fh)
+	}
+	for i, u := range units {
+		b, _ := json.Marshal(u)
+		files[i%np].Write(b)
+		files[i%np].WriteByte('\n')
+	}
+	for i := range files {
+		files[i].Flush()
+		fhs[i].Close()
+	}
+	self, _ := os.Executable()
+	var wg sync.WaitGroup
+	fails := make([]string, np)
+	for i := 0; i < np; i++ {
+		wg.Add(1)
+		go func(i int) {
+			defer wg.Done()
+			cmd := exec.Command(self, "--child-in", inName(i), "--child-out", outName(i), "--out", fl.Out)
+			cmd.Env = append(os.Environ(), "GOMAXPROCS=2")
+			if b, err := cmd.CombinedOutput(); err != nil {
+				s := string(b)
+				if len(s) > 3000 {
+					// the head names the fatal error, the tail the goroutines involved
+					s = s[:900] + "\n...\n" + s[len(s)-2000:]
+				}
+				fails[i] = err.Error() + ": " + s
+			}
+		}(i)
+	}
+	wg.Wait()
+	for i := 0; i < np; i++ {
+		fh, err := os.Open(outName(i))
+		if err != nil {
+			continue
+		}
+		sc := bufio.NewScanner(fh)
+		sc.Buffer(make([]byte, 1<<20), 1<<28)
+		for sc.Scan() {
+			var l outLine
+			if json.Unmarshal(sc.Bytes(), &l) == nil && l.Res != nil {
+				lines = append(lines, l)
+			}
+		}
+		fh.Close()
+	}
+	for i := 0; i < np; i++ {
+		if fails[i] == "" {
+			continue
+		}
+		done := map[uint64]bool{}
+		for _, l := range lines {
+			done[l.Case.ID] = true
+			if l.Root != 0 {
+				done[l.Root] = true
+			}
+		}
+		for j := i; j < len(units); j += np {
+			u := units[j]
+			if done[u.Case.ID] {
+				continue
+			}
+			var prov []string
+			for _, p := range u.Case.Prov {
+				prov = append(prov, strconv.Itoa(p))
+			}
+			lines = append(lines, outLine{Case: u.Case, Res: &Result{
+				Coq:    fmt.Sprintf("mkCase @ID@%%N %d [%s] false []", u.Case.NT, strings.Join(prov, ";")),
+				Counts: map[string]int{"child-process-died": 1},
+				Direct: []Direct{{What: "the implementation crashed the process", Detail: "while this case was running the harness process died: " + fails[i]}},
+			}})
+			fails[i] = ""
+			break
+		}
+	}
+	for i := 0; i < np; i++ {
+		if fails[i] != "" {
+			leftover = append(leftover, fmt.Sprintf("%s %d: %s", tag, i, fails[i]))
+		}
+		os.Remove(inName(i))
+		os.Remove(outName(i))
+	}
+	return lines, leftover
 }
 
 // ---------------------------------------------------------------------------------------
@@ -469,6 +495,19 @@ func generate(prop string, fl *hx.Flags) []unit {
 		c := freeCase(prop, fl.Seed, i, fl.Tier == "thorough")
 		c.ID = id
 		us = append(us, unit{Case: c})
+	}
+	// renewal races on the un-gated store (free.go, LeaseMs > 0): judged by residue only, part of C04
+	if prop == "C04" {
+		nrace := 32
+		if fl.Tier == "thorough" {
+			nrace = 96
+		}
+		for i := 0; i < nrace; i++ {
+			id++
+			c := raceCase(prop, fl.Seed, i, fl.Tier == "thorough")
+			c.ID = id
+			us = append(us, unit{Case: c})
+		}
 	}
 	return us
 }
